@@ -812,6 +812,13 @@ func collect(roots []*Term) []*Term {
 // Script renders a query asserting all the given formulas.
 // Shared non-leaf nodes are emitted as define-fun to keep the text linear in the DAG size.
 func Script(asserts []*Term, logic string, getValues []*Term) string {
+	s, _ := ScriptEx(asserts, logic, getValues, nil)
+	return s
+}
+
+// ScriptEx also returns the printed form of the given conditions (sub-terms of the asserts),
+// usable in extra (assert ...) lines appended before (check-sat) for a case split.
+func ScriptEx(asserts []*Term, logic string, getValues []*Term, conds []*Term) (string, []string) {
 	roots := append([]*Term{}, asserts...)
 	roots = append(roots, getValues...)
 	order := collect(roots)
@@ -900,7 +907,48 @@ func Script(asserts []*Term, logic string, getValues []*Term) string {
 		}
 		sb.WriteString("))\n")
 	}
-	return sb.String()
+	var cs []string
+	for _, c := range conds {
+		var cb strings.Builder
+		printTerm(&cb, c, names)
+		cs = append(cs, cb.String())
+	}
+	return sb.String(), cs
+}
+
+// splitConds proposes conditions for a case split: the conditions of ite terms (typically the
+// path selectors of merged states) in the cone of the asserts, most frequent first, at most max.
+func splitConds(asserts []*Term, max int) []*Term {
+	count := map[int]int{}
+	byID := map[int]*Term{}
+	for _, t := range collect(asserts) {
+		if t.Op == "ite" {
+			c := t.Args[0]
+			if c.Op == "not" {
+				c = c.Args[0]
+			}
+			count[c.id]++
+			byID[c.id] = c
+		}
+	}
+	var ids []int
+	for id := range count {
+		ids = append(ids, id)
+	}
+	sort.Slice(ids, func(i, j int) bool {
+		if count[ids[i]] != count[ids[j]] {
+			return count[ids[i]] > count[ids[j]]
+		}
+		return ids[i] < ids[j]
+	})
+	var out []*Term
+	for _, id := range ids {
+		if len(out) >= max {
+			break
+		}
+		out = append(out, byID[id])
+	}
+	return out
 }
 
 // shallow returns names without the entry for t itself (so its definition prints its body).
